@@ -27,7 +27,12 @@ def judge(module, records, constants=None, chunk=20000):
             r = tlc.run(module, cfg, workers=8, env_extra={'RECS': fn}, tag='BAD', timeout=3000,
                         extra_args=['-continue'])
         finally:
-            os.unlink(fn)
+            os.replace(fn, os.path.join(d, 'last-%s.json' % module))     # kept for diagnosis (overwritten each time)
+        if (r.error and not r.violation) or r.generated < len(part):
+            import shutil
+            shutil.copy(os.path.join(d, 'last-%s.json' % module), os.path.join(d, 'failed-%s.json' % module))
+            with open(os.path.join(d, 'failed-%s.cfg' % module), 'w') as fh:
+                fh.write(cfg)
         if r.error and not r.violation:
             common.machinery_failure('judge %s: %s\n%s' % (module, r.error, r.out[-3000:]))
         if r.generated < len(part):
